@@ -369,8 +369,19 @@ func loadChunk(l *Lexer, recordLen uint64) error {
 		return fmt.Errorf("failed to read compression length: %w", err)
 	}
 
-	// read compression and records length into buffer
-	thisReadLength, err := io.ReadFull(l.reader, l.buf[:compressionLen+8])
+	// read compression and records length into buffer. The compression string length comes from
+	// the input: it may exceed the fixed-size scratch buffer, and it cannot exceed the record.
+	buf := l.buf
+	if need := uint64(compressionLen) + 8; need > uint64(len(buf)) {
+		if recordLen < uint64(readLength) || need > recordLen-uint64(readLength) {
+			return fmt.Errorf("chunk compression string length %d exceeds chunk record length %d", compressionLen, recordLen)
+		}
+		buf, err = makeSafe(need)
+		if err != nil {
+			return fmt.Errorf("failed to allocate chunk compression buffer: %w", err)
+		}
+	}
+	thisReadLength, err := io.ReadFull(l.reader, buf[:uint64(compressionLen)+8])
 	readLength += thisReadLength
 	if errors.Is(err, io.ErrUnexpectedEOF) || errors.Is(err, io.EOF) {
 		return &ErrTruncatedRecord{
@@ -382,8 +393,8 @@ func loadChunk(l *Lexer, recordLen uint64) error {
 	if err != nil {
 		return fmt.Errorf("failed to read compression from chunk: %w", err)
 	}
-	compression := CompressionFormat(l.buf[:compressionLen])
-	recordsLength, _, err := getUint64(l.buf, int(compressionLen))
+	compression := CompressionFormat(buf[:compressionLen])
+	recordsLength, _, err := getUint64(buf, int(compressionLen))
 	if err != nil {
 		return fmt.Errorf("failed to read records length: %w", err)
 	}
